@@ -471,6 +471,11 @@ def await_value(I, v, frame, node):
             return r
     if isinstance(v, Coro):
         return I.run_coro(v)
+    cls = v.cls if isinstance(v, SObj) else type(v)
+    r = I.lookup_class_attr(cls, "__pyvc_await__") if isinstance(cls, type) and I.is_interp_class(cls) else None
+    if r is not None:
+        # awaitable stand-in of a contract class: `async def __pyvc_await__(self)` says what awaiting it does
+        return I.run_coro(I.call_function(r[0], [v], {}, defcls=r[1]))
     if isinstance(v, Opaque):
         aw = v.attrs.get("__await__")
         if aw is not None:
